@@ -576,7 +576,10 @@ class MemorizedFunc(Logger):
             if self._func_code_id is None:
                 self._func_code_id = id(self.func.__code__)
             elif id(self.func.__code__) != self._func_code_id:
-                # Be robust to dynamic reassignments of self.func.__code__
+                # Be robust to dynamic reassignments of self.func.__code__:
+                # the cached source belongs to the code object it was read
+                # for, also when an earlier code object is assigned back.
+                self._func_code_id = id(self.func.__code__)
                 self._func_code_info = None
 
         if self._func_code_info is None:
